@@ -50,6 +50,8 @@ pub struct Params {
     pub bias: f64,
     pub radius: f64,
     pub seed: Option<u64>,
+    /// PRM roadmap construction time in seconds
+    pub build_secs: f64,
 }
 
 #[derive(Clone, Debug, PartialEq)]
@@ -153,7 +155,7 @@ where
         PlannerKind::Rrt => AnyPlanner::Rrt(RRT::new(params.maxd, params.bias, &cfg)),
         PlannerKind::Star => AnyPlanner::Star(RRTStar::new(params.maxd, params.bias, params.radius, &cfg)),
         PlannerKind::Conn => AnyPlanner::Conn(RRTConnect::new(params.maxd, params.bias, &cfg)),
-        PlannerKind::Prm => AnyPlanner::Prm(PRM::new(3600.0, params.radius, &cfg)),
+        PlannerKind::Prm => AnyPlanner::Prm(PRM::new(params.build_secs, params.radius, &cfg)),
     };
     let mk_pd = |i: usize| -> Arc<PD<S, SP>> {
         Arc::new(ProblemDefinition {
@@ -170,7 +172,10 @@ where
     }
     let mut outs = Vec::new();
     for (ci, call) in script.iter().enumerate() {
-        log::with(|l| l.cur_call = ci);
+        log::with(|l| {
+            l.cur_call = ci;
+            l.n_interp_queries = 0;
+        });
         oxmpl::verif::reset_ticks();
         let t0 = std::time::Instant::now();
         let r = catch_unwind(AssertUnwindSafe(|| -> Result<Option<Vec<S>>, PlanningError> {
@@ -188,7 +193,7 @@ where
                     Ok(None)
                 }
                 Call::Solve(b) => {
-                    oxmpl::verif::set_budget(Some(*b));
+                    oxmpl::verif::set_budget(if *b == u64::MAX { None } else { Some(*b) });
                     let r = match &mut pl {
                         AnyPlanner::Rrt(x) => x.solve(timeout),
                         AnyPlanner::Star(x) => x.solve(timeout),
@@ -198,7 +203,7 @@ where
                     r.map(|p| Some(p.0))
                 }
                 Call::Construct(b) => {
-                    oxmpl::verif::set_budget(Some(*b));
+                    oxmpl::verif::set_budget(if *b == u64::MAX { None } else { Some(*b) });
                     match &mut pl {
                         AnyPlanner::Prm(x) => x.construct_roadmap().map(|_| None),
                         _ => Ok(None),
